@@ -137,7 +137,7 @@ func runC07(c *Ctx) {
 	}
 	for _, s := range sites {
 		fn := p.Func(s.spec)
-		fns := append([]*ssa.Function{fn}, fn.AnonFuncs...)
+		fns := regionFuncs(fn)
 		chk := func(st *types.Struct, tname string, read bool) {
 			for i := 0; i < st.NumFields(); i++ {
 				f := st.Field(i)
